@@ -9,7 +9,7 @@ implemented property with --all-checks). Prints which checks report a VIOLATION.
 import json, os, shutil, subprocess, sys, glob, tempfile
 from concurrent.futures import ThreadPoolExecutor
 
-VERIF = "/verif"
+VERIF = os.environ.get("VERIF_DIR", "/verif")
 
 
 def implemented():
